@@ -252,6 +252,29 @@ def run(P, rep, tier):
     rep.ob('C23.DIR', 'svt_circular_buffer_ctor/capacity', ok, cc.loc(), 'array_ptr is allocated with the count stored in buffer_total_count')
     rep.floor('C23.DIR', 12)
 
+    # ---------------- WAKE: returning from the semaphore wait means a token was taken.  Every caller (the SRM gets, the segment
+    # hand-offs, the decoder workers) discards the wrapper's result and goes on to pop / consume, so the wrapper itself must not
+    # return on a wake-up that took no token: each OS wait call in it is retried on interruption, or every caller tests the result
+    bos = P.fn('svt_block_on_semaphore')
+    waits = [(ev, n) for ev, n in bos.calls(('sem_wait', 'sem_timedwait', 'sem_trywait'))]
+    if not waits:
+        raise AnalysisBroken('svt_block_on_semaphore no longer calls sem_wait (POSIX branch not analysed?)')
+    callers = [(g, ev) for g in P.fns if not g.nocfg for ev, n in g.calls('svt_block_on_semaphore')]
+    unchecked = sorted({g.name for g, ev in callers if ev.get('use') in ('discard', 'void', 'expr')})
+    for ev, n in waits:
+        retry = False
+        for kind, cond, line in bos.ctl_chain(ev):
+            if kind in ('do', 'while', 'for') and cond is not None and not isinstance(cond[0], list):
+                cs = pstr(strip(cond))
+                if '__errno_location' in cs or 'errno' in cs:
+                    retry = True
+        ok = retry or not unchecked
+        rep.ob('C23.WAKE', 'svt_block_on_semaphore/%s' % n, ok, bos.loc(ev),
+               ('%s is retried while it reports an interrupted wait' % n) if retry else
+               ('%s is called once: an interrupted wait (EINTR) returns without a token, and %d callers (%s ...) ignore the result and pop an empty FIFO'
+                % (n, len(unchecked), ', '.join(unchecked[:3]))))
+    rep.floor('C23.WAKE', 1)
+
     # ---------------- RELEASE
     who = []
     for f in P.fns:
